@@ -36,9 +36,12 @@ def cases(tier, seed):
     n = 600 if tier == "quick" else 80000
     out = []
     for j in range(n):
-        out.append({"s": int(rng.integers(1 << 30)), "cell": planted.CELL_CLASSES[j % len(planted.CELL_CLASSES)], "pattern": patterns.CLASSES[(j // 2) % len(patterns.CLASSES)],
+        out.append({"s": int(rng.integers(1 << 30)), "cell": planted.CELL_CLASSES[j % len(planted.CELL_CLASSES)], "pattern": (patterns.CLASSES + ["close_pair"])[(j // 2) % (len(patterns.CLASSES) + 1)],
                     "repl": REPLS[(j // 3) % len(REPLS)], "atol": [0.05, 0.2, 0.01][(j // 5) % 3], "replace_all": (j // 7) % 4 == 0, "joint_motion": j % 3 == 0,
                     "fraction": [1.0, 1.0, 0.5, 0.67, 0.34][(j // 4) % 5], "sample": ["reversed", "real", "first"][(j // 9) % 3]})
+        if out[-1]["pattern"] == "close_pair":
+            # two like atoms 0.12-0.19 A apart: at the larger tolerances one structure atom fits both places of a candidate
+            out[-1]["atol"] = [0.2, 0.2, 0.5][j % 3]
     return out
 
 
